@@ -741,9 +741,36 @@ func (w *world) addVS(r *vh.Rng, ns, name, host string, vsrs []string) {
 	}
 	for i, ref := range vsrs {
 		p := []string{"/vsr1", "/vsr2", "/vsr1/deeper"}[i%3]
-		vs.Spec.Routes = append(vs.Spec.Routes, conf_v1.Route{Path: p, Route: ref})
+		drt := conf_v1.Route{Path: p, Route: ref}
+		if r.Chance(1, 2) {
+			// errorPages (and policies) of a delegating route are inherited by every subroute of the
+			// referenced VirtualServerRoute that has none of its own; return-type pages become named
+			// locations @error_page_<route>_<i>, numbered across the whole server
+			drt.ErrorPages = []conf_v1.ErrorPage{{Codes: []int{502, 503}, Return: &conf_v1.ErrorPageReturn{ActionReturn: conf_v1.ActionReturn{Code: 200, Type: "text/plain", Body: "sorry"}}}}
+			if r.Bool() {
+				drt.ErrorPages = append(drt.ErrorPages, conf_v1.ErrorPage{Codes: []int{404}, Return: &conf_v1.ErrorPageReturn{ActionReturn: conf_v1.ActionReturn{Code: 404, Body: "nope",
+					Headers: []conf_v1.Header{{Name: "x-code", Value: "${upstream_status}"}}}}})
+			}
+			if r.Chance(1, 3) {
+				drt.ErrorPages = append(drt.ErrorPages, conf_v1.ErrorPage{Codes: []int{500}, Redirect: &conf_v1.ErrorPageRedirect{ActionRedirect: conf_v1.ActionRedirect{URL: "http://nginx.com/${status}", Code: 302}}})
+			}
+			res.Note += " delegating-errorPages"
+		}
+		if r.Chance(1, 4) {
+			drt.Policies = genPolicyRefs(r, ns)
+			res.Policies = append(res.Policies, polNames(drt.Policies)...)
+		}
+		vs.Spec.Routes = append(vs.Spec.Routes, drt)
 		res.Paths = append(res.Paths, p)
 		res.Routes = append(res.Routes, p+"->"+ref)
+	}
+	if len(vsrs) > 0 && r.Bool() {
+		// delegating routes anywhere among the routes of the VirtualServer (the indexes of the named
+		// locations follow the order of the routes)
+		for a := len(vs.Spec.Routes) - 1; a > 0; a-- {
+			b := r.Intn(a + 1)
+			vs.Spec.Routes[a], vs.Spec.Routes[b] = vs.Spec.Routes[b], vs.Spec.Routes[a]
+		}
 	}
 	w.objs = append(w.objs, vs)
 	w.res = append(w.res, res)
